@@ -13,6 +13,9 @@
 (*            payload id, the key whose fingerprint is Src.ID and the key  *)
 (*            p2p.LookupPublicKeyInHandler(Src) returned (or "panic");     *)
 (*   saw      the adversary's endpoint obtained the payload in clear;      *)
+(*   lookup   a LookupPublicKey call of A or B OUTSIDE a handler returned: *)
+(*            the identity and transport owner of the address asked about  *)
+(*            and the key that came back ("err": none);                    *)
 (*   end      the script is over and everything has settled.               *)
 (* The three operators are SecureSwarm.tla's Attribution, DialSafety and   *)
 (* Whitelist in their per-observation form, evaluated on REAL              *)
@@ -56,6 +59,8 @@ AttributionP(s, d) ==
 \* n: the node that was handed the payload
 DialSafetyP(s, n) == s.from \in HonestNodes => s.x \in holds[n]
 WhitelistP(s, n) == s.used \in wl[n]
+\* e: a lookup event.  A key handed out for the address (X, t) is X's key.
+LookupP(e) == e.lk \in {"err", e.x}
 
 TraceNext ==
     /\ l <= Len(Log)
@@ -94,6 +99,11 @@ TraceNext ==
                 /\ ~DialSafetyP(s, ev.at) => PrintT(ToJson(<<"VIOL", l, ev.beh, {"DialSafety"}>>))
                 /\ (s.exp.sure /\ ~s.exp.seen /\ s.from \in HonestNodes) =>
                         PrintT(ToJson(<<"DRIFT", l, ev.beh, "the adversary read a payload the model did not predict">>))
+       ELSE IF ev.ev = "lookup" THEN
+           /\ UNCHANGED <<wl, holds, snd, got, seen>>
+           /\ ~LookupP(ev) => PrintT(ToJson(<<"VIOL", l, ev.beh, {"Attribution"}>>))
+           /\ (ev.exp.sure /\ ev.lk # (IF ev.exp.st = "got" THEN ev.exp.res ELSE "err")) =>
+                    PrintT(ToJson(<<"DRIFT", l, ev.beh, "LookupPublicKey result the model did not predict">>))
        ELSE IF ev.ev = "end" THEN
            /\ UNCHANGED <<wl, holds, snd, got, seen>>
            /\ LET missing == {p \in DOMAIN snd : snd[p].exp.sure /\
